@@ -63,6 +63,13 @@ Definition hash_code (k : cls_spec) (i : inst) : res val :=
 
 Definition is_none (v : val) : bool := match v with VNone => true | _ => false end.
 
+(** The cache attribute is readable and holds [None] or the hash of the current fields. *)
+Definition cache_consistent (k : cls_spec) (i : inst) : bool :=
+  match read k i HASH_CACHE, hash_code k i with
+  | Ok c, Ok h => is_none c || val_eqb c h
+  | _, _ => false
+  end.
+
 (** [hash(inst)]: the instance afterwards and the result. *)
 Definition do_hash (k : cls_spec) (i : inst) : inst * res val :=
   if k_cache_hash k then
